@@ -188,12 +188,16 @@ func Remove(repo repository.ClockedRepo, id entity.Id) error {
 // linked from another entity, otherwise it would break them.
 // RemoveAll is idempotent.
 func RemoveAll(repo repository.ClockedRepo) error {
-	localIds, err := ListLocalIds(repo)
+	// Every reference of the namespace goes, whatever its name. Going through Remove(id) would stop at
+	// the first reference whose name is not a valid id (a copy kept by the user, an id of the old
+	// format) and leave the removal half done, for ever. The remote-tracking references of the local
+	// identities are removed below, with all the others.
+	localRefs, err := repo.ListRefs(identityRefPattern)
 	if err != nil {
 		return err
 	}
-	for _, id := range localIds {
-		err = Remove(repo, id)
+	for _, ref := range localRefs {
+		err = repo.RemoveRef(ref)
 		if err != nil {
 			return err
 		}
